@@ -9,9 +9,51 @@
    s2) have a computable inverse that recognises its own constructor. *)
 From Bifrost Require Import Lib.Base Lib.Sym.
 
-Definition pack (a : sbytes) : sym := F 0%nat a 0%nat.
+(* Packing.  A string that is an argument of a function symbol is stored in
+   run-length compressed form: consecutive output bytes i, i+1, ... of one
+   application are one symbol [run_sym (F f args i) n] (n+1 bytes).  Only the
+   evaluation cost depends on this (a string of n output bytes would otherwise
+   carry n copies of its arguments at every nesting level); [expand] is a left
+   inverse of [compress], so [pack] is injective. *)
+Definition FN_RUN : nat := 18.
+Definition run_sym (x : sym) (n : nat) : sym := F FN_RUN [x] n.
+
+Definition expand1 (x : sym) : sbytes :=
+  match x with
+  | F fn [y] n =>
+      if Nat.eqb fn FN_RUN
+      then match y with F f args i => map (F f args) (seq i (S n)) | B _ => [x] end
+      else [x]
+  | _ => [x]
+  end.
+Definition expand (l : sbytes) : sbytes := flat_map expand1 l.
+
+(* if y = run_sym (F f args (S i)) n then Some n *)
+Definition same_run (f : nat) (args : list sym) (i : nat) (y : sym) : option nat :=
+  match y with
+  | F fn [F f' args' i'] n =>
+      if Nat.eqb fn FN_RUN && Nat.eqb f f' && Nat.eqb i' (S i) && list_eqb sym_eqb args args'
+      then Some n else None
+  | _ => None
+  end.
+
+Fixpoint compress (l : sbytes) : sbytes :=
+  match l with
+  | [] => []
+  | B z :: l' => B z :: compress l'
+  | F f args i :: l' =>
+      match compress l' with
+      | y :: r => match same_run f args i y with
+                  | Some n => run_sym (F f args i) (S n) :: r
+                  | None => run_sym (F f args i) 0 :: y :: r
+                  end
+      | [] => [run_sym (F f args i) 0]
+      end
+  end.
+
+Definition pack (a : sbytes) : sym := F 0%nat (compress a) 0%nat.
 Definition unpack (x : sym) : option sbytes :=
-  match x with F 0%nat a 0%nat => Some a | _ => None end.
+  match x with F 0%nat a 0%nat => Some (expand a) | _ => None end.
 Fixpoint unpack_all (l : list sym) : option (list sbytes) :=
   match l with
   | [] => Some []
@@ -47,7 +89,7 @@ Definition FN_SEAL : nat := 8.     (* XChaCha20-Poly1305 seal: [key; nonce; ad; 
 Definition FN_S2 : nat := 9.       (* s2 compression: [msg] -> oracle length *)
 Definition FN_MUT : nat := 10.     (* a byte after a bit flip: [orig; mask] *)
 Definition FN_HASH : nat := 11.    (* blake3 hash: [data] -> 32 *)
-Definition FN_XOR : nat := 12.     (* xor of two bytes *)
+Definition FN_XOR : nat := 12.     (* the nonce mixing (byte-wise xor of two parts of a hash) *)
 Definition FN_ATOM : nat := 13.    (* opaque test atoms (keys, large messages) *)
 Definition FN_HEX : nat := 14.     (* hex digits of a symbolic byte *)
 Definition FN_SHARE : nat := 15.   (* Shamir share value: [secret; poly randomness; degree; id] -> 32 *)
@@ -147,7 +189,6 @@ Definition s2dec (raw : sbytes -> option sbytes) (c : sbytes) : option sbytes :=
 
 (* a byte after xor with a non-zero mask: some other byte *)
 Definition mut_byte (x : sym) (d : Z) : sym := F FN_MUT [x; B d] 0%nat.
-Definition xor_sym (a b : sym) : sym := F FN_XOR [a; b] 0%nat.
 
 Definition unlift1 (x : sym) : option Z := match x with B z => Some z | _ => None end.
 Fixpoint unlift (s : sbytes) : option bytes :=
